@@ -10,7 +10,7 @@
    Counts and BinToValue, math.NaN() and the final panic are opaque parameters of the generated
    definitions (countsv, btv, nanv, panicv), and the tie holds for all of them. *)
 From Coq Require Import ZArith NArith QArith Qround Qabs List Lia Lqa.
-From MM Require Import Base.Num Base.GoSem Model.Hist.
+From MM Require Import Base.Num Base.GoSem Model.Hist Proofs.Hist.
 From MMGen Require Import Gen_stats_types Gen_stats_linearhist Gen_stats_loghist Gen_stats_hist.
 Import ListNotations.
 Local Open Scope Q_scope.
@@ -54,8 +54,6 @@ Proof.
   - f_equal. apply IH; [intros c' Hc'; apply Hov; right; exact Hc' | lia].
 Qed.
 
-Lemma incr_nth_length l k : length (incr_nth l k) = length l.
-Proof. revert k. induction l as [|c t IH]; intros [|k]; simpl; try reflexivity. f_equal. apply IH. Qed.
 
 Theorem tie_LinearHist_Add : forall (h : LinearHist_rec) (x : Q), wf h -> no_overflow h ->
   let h' := gen_LinearHist_Add h x in
@@ -70,6 +68,44 @@ Proof.
     rewrite ?(wrap_u_small 64 (lo + 1)) by exact Hlo; rewrite ?(wrap_u_small 64 (hi + 1)) by exact Hhi;
     rewrite ?upd_incr by (try exact Hb; lia);
     repeat split; try reflexivity; try assumption; rewrite incr_nth_length; exact Hwf.
+Qed.
+
+(* ---------- the tie along a whole run of Add calls (lin_run is what the C14 conservation and
+   binning theorems speak about) ---------- *)
+Lemma In_le_Nsum c l : In c l -> (c <= Nsum l)%N.
+Proof. induction l as [|a l IH]; simpl; [tauto|]. intros [->|H]; [lia | specialize (IH H); lia]. Qed.
+
+Lemma no_overflow_of_total h : (h_total (to_hstate h) + 1 < 2 ^ 64)%N -> no_overflow h.
+Proof.
+  destruct h as [mn mx d lo hi bins]. unfold h_total, to_hstate, no_overflow. proj. intros H.
+  repeat split; try lia. intros c Hc. apply In_le_Nsum in Hc. lia.
+Qed.
+
+Theorem tie_LinearHist_run : forall (xs : list Q) (h : LinearHist_rec), wf h ->
+  (h_total (to_hstate h) + N.of_nat (length xs) < 2 ^ 64)%N ->
+  let h' := fold_left gen_LinearHist_Add xs h in
+  to_hstate h' = fold_left (lin_add (LinearHist_min h) (LinearHist_max h)) xs (to_hstate h) /\
+  wf h' /\ LinearHist_min h' = LinearHist_min h /\ LinearHist_max h' = LinearHist_max h.
+Proof.
+  induction xs as [|x xs IH]; intros h Hwf Hb; cbn [fold_left].
+  - repeat split; try reflexivity. exact Hwf.
+  - cbn [length] in Hb.
+    destruct (tie_LinearHist_Add h x Hwf (no_overflow_of_total h ltac:(lia))) as (E & Hwf' & Emin & Emax).
+    assert (Ht : h_total (to_hstate (gen_LinearHist_Add h x)) = (h_total (to_hstate h) + 1)%N).
+    { rewrite E. unfold lin_add. apply h_incr_total. unfold lin_slot. apply dispatch_valid. }
+    destruct (IH (gen_LinearHist_Add h x) Hwf' ltac:(rewrite Ht; lia)) as (E2 & Hwf2 & Emin2 & Emax2).
+    rewrite Emin, Emax, E in E2. repeat split; try assumption; congruence.
+Qed.
+
+(* from the constructor: the generated NewLinearHist followed by Adds is the model's lin_run *)
+Corollary tie_LinearHist_new_run : forall (mn mx : Q) (n : Z) (xs : list Q), (0 <= n)%Z ->
+  (N.of_nat (length xs) < 2 ^ 64)%N ->
+  to_hstate (fold_left gen_LinearHist_Add xs (gen_NewLinearHist mn mx n)) = lin_run mn mx (Z.to_nat n) xs.
+Proof.
+  intros mn mx n xs Hn Hl. destruct (tie_NewLinearHist mn mx n Hn) as (Hwf & E0 & Emin & Emax).
+  destruct (tie_LinearHist_run xs _ Hwf) as (E & _).
+  - rewrite E0, h_empty_total. lia.
+  - rewrite E, E0, Emin, Emax. reflexivity.
 Qed.
 
 Theorem tie_LinearHist_Counts : forall h : LinearHist_rec,
